@@ -41,6 +41,9 @@ type Instance struct {
 	Complete bool
 	Typed    bool // values are int32 (GetI32 applies)
 	Small    bool // small enough for String/Marshal in the quick tier
+	// ValueOps: the alphabet is restricted to the operations that decode stored
+	// values (the instance exists for its value encoder).
+	ValueOps bool
 	// Loads: the operations of this family do not read the shared instance; each
 	// loads a stream into (or builds) an instance of its own and reads it.  The
 	// shared state they can collide on is package-level state of the load and
@@ -154,6 +157,39 @@ func Instances(seed int64, thorough bool) []*Instance {
 			return st3
 		}, Keys: keys, Typed: true, Small: true})
 	}
+	// 8./9. value encoders that are objects with fields of their own (a
+	// TypeEncoder over a struct) or variable width (String16): concurrent reads
+	// of DIFFERENT values meet inside the encoder
+	{
+		type rec struct {
+			A int32
+			B uint16
+		}
+		recs := make([]rec, len(smallKeys))
+		strs := make([]string, len(smallKeys))
+		for i := range recs {
+			recs[i] = rec{A: int32(0x01010101 * (i + 1)), B: uint16(0x0101 * (i + 1))}
+			strs[i] = strings.Repeat(string(rune('a'+i)), 1+i%3)
+		}
+		add(&Instance{Name: "fresh-complete-typeencoder", Make: func() *trie.SlimTrie {
+			enc, err := encode.NewTypeEncoder(rec{})
+			if err != nil {
+				panic(err)
+			}
+			st, err := trie.NewSlimTrie(enc, smallKeys, recs, trie.Opt{Complete: trie.Bool(true)})
+			if err != nil {
+				panic(err)
+			}
+			return st
+		}, Keys: smallKeys, Complete: true, Small: true, ValueOps: true})
+		add(&Instance{Name: "fresh-filter-string16", Make: func() *trie.SlimTrie {
+			st, err := trie.NewSlimTrie(encode.String16{}, smallKeys, strs)
+			if err != nil {
+				panic(err)
+			}
+			return st
+		}, Keys: smallKeys, Small: true, ValueOps: true})
+	}
 	// 7. separate instances made concurrently: loads of the 0.5.10, 0.5.11 and
 	// current stream generations (no shared instance at all)
 	{
@@ -247,6 +283,14 @@ func OpsFor(in *Instance, thorough bool) []Op {
 	var ops []Op
 	add := func(name string, long bool, f func(st *trie.SlimTrie) string) {
 		ops = append(ops, Op{Name: name, Body: f, Long: long})
+	}
+	if in.ValueOps {
+		add("Get(k1)", false, func(st *trie.SlimTrie) string { v, f := st.Get(k1); return fmt.Sprint(v, f) })
+		add("Get(k2)", false, func(st *trie.SlimTrie) string { v, f := st.Get(k2); return fmt.Sprint(v, f) })
+		add("RangeGet(absent)", false, func(st *trie.SlimTrie) string { v, f := st.RangeGet(absent); return fmt.Sprint(v, f) })
+		add("Search(k2)", false, func(st *trie.SlimTrie) string { l, e, r := st.Search(k2); return fmt.Sprint(l, e, r) })
+		add("String", true, func(st *trie.SlimTrie) string { return sha([]byte(st.String())) })
+		return ops
 	}
 	add("Get(k1)", false, func(st *trie.SlimTrie) string { v, f := st.Get(k1); return fmt.Sprint(v, f) })
 	add("Get(absent)", false, func(st *trie.SlimTrie) string { v, f := st.Get(absent); return fmt.Sprint(v, f) })
